@@ -1,4 +1,5 @@
 """Executing single yatiml operations and recording canonical outcomes."""
+import collections
 import io
 
 from sim import canon, seam
@@ -66,6 +67,9 @@ def use_result(v, depth=0, seen=None):
         for x in list(v.values()):
             use_result(x, depth + 1, seen)
         v['<used by the caller>'] = True
+    elif isinstance(v, collections.UserString):
+        # (a UserString is mutable: its owner may edit the text)
+        v.data = v.data + '<edited by the caller>'
     elif getattr(type(v), '_sim_uid', None) is not None and hasattr(v, '__dict__') \
             and not isinstance(v, (str, bytes)):
         import enum
